@@ -664,9 +664,10 @@ def _load_composite_subset_state(rec, context):
     cls = lookup_class_with_patches(rec['_type'])
     state1 = context.object(rec['state1'])
     state2 = context.object(rec['state2'])
-    result = cls(state1, state2)
-    # the constructor copies its arguments; keep the loaded objects themselves,
-    # since some of them are completed later by __setgluestate_callback__
+    # The constructor copies its arguments, but some of the loaded states are
+    # only completed later by __setgluestate_callback__ (and cannot be copied
+    # before that), so we keep the loaded objects themselves.
+    result = cls.__new__(cls)
     result.state1, result.state2 = state1, state2
     return result
 
